@@ -448,3 +448,5 @@ M("c15-sorter-raw-index", "C15", U, "    x = np.asarray(x)\n    y = np.asarray(y
 M("c15-twin-sorter-array", "C15", U, "    x = np.asarray(x)\n    y = np.asarray(y)\n    points = np.c_[x, y]\n", "    x, y = np.array(x), np.array(y)\n    points = np.c_[x, y]\n", expect="pass")
 M("c13-integer-data", "C13", D, "        data = np.asarray_chkfinite(data, dtype=float)\n        x = np.sort(data)", "        data = np.asarray_chkfinite(data)\n        x = np.sort(data)", rules=["C13.formula"], what="original defect (third audit C13#2)")
 M("c13-twin-float64", "C13", D, "        data = np.asarray_chkfinite(data, dtype=float)\n        x = np.sort(data)", "        data = np.asarray_chkfinite(data, dtype=np.float64)\n        x = np.sort(data)", expect="pass")
+M("c19-fill-callers-list", ["C19", "C09"], J, "                    filled_descriptions.append(default_fit_desc)\n", "                    filled_descriptions.append(default_fit_desc)\n                    fit_descriptions[i] = default_fit_desc\n", rules={"C19": ["C19.args"], "C09": ["C09.defaults"]}, what="the caller's list of descriptions is written to")
+M("c19-sorter-sorts-caller", "C19", U, "    x = np.asarray(x)\n    y = np.asarray(y)\n    points = np.c_[x, y]\n", "    x.sort()\n    x = np.asarray(x)\n    y = np.asarray(y)\n    points = np.c_[x, y]\n", rules=["C19.args"])
